@@ -249,3 +249,10 @@ def r19_4_zoned_and_system_clock(ctx: Ctx) -> RuleResult:
     else:
         rr.fail(f.qual, f"must be UNIX_EPOCH.plus_nanoseconds(time.time_ns()); returns {[show(o[0]) for o in outs]}", ctx.loc(f))
     return rr
+
+
+@rule("C19")
+def r19_5_units(ctx: Ctx) -> RuleResult:
+    from ..dims import units_rule
+
+    return units_rule(ctx, "R19.5", "C19", 5)
